@@ -308,7 +308,7 @@ inductive QOrd where
 deriving Repr, DecidableEq
 
 def cmpValues (x y : α) : QOrd :=
-  if lt x y then .lt else if lt y x then .gt else .eq
+  if lt x y then .lt else if lt y x then .gt else if beq x y then .eq else .nan
 
 /-- `Quantity::partial_cmp_preserve_nan` (with the zero-on-the-left repair) -/
 def qcmp (tbl : Table α) (a b : Quantity α) : QOrd :=
